@@ -29,6 +29,7 @@ def step (w : W) (ws : List String) : W × String :=
   match ws with
   | ["new"] => ({}, "ok")
   | ["race"] => (w, "race done")     -- directed schedule for known finding F5 (monitor only)
+  | ["crashtrack"] => (w, "crashtrack done")   -- directed schedule: stopped between tracking and storing a block (monitor only)
   | ["blk", e] =>
     let n := w.s.chain.length            -- index of the new block
     let c := (w.created.getD n 0) + 1
